@@ -83,6 +83,9 @@ def unit(model, sizes):
             r = eq_rec(P2, f"C09/{model}/predict_win/two-identical-half@{shape}", term(o2[1][0]), half, fn, shape, rp)
             r2 = eq_rec(P2, f"C09/{model}/predict_win/two-identical-half[1]@{shape}", term(o2[1][1]), half, fn, shape, rp)
             recs += [r, r2]
+    from .predutil import history_records
+    if n <= 3:
+        recs += history_records("C09", W, model, sizes, ("predict_win",))
     return recs
 
 
